@@ -103,6 +103,10 @@ type service struct {
 	// then exit.
 	done chan struct{}
 
+	// stopped, if not nil, is closed when the teardown of the service has finished
+	// (by the one call of stop() that carried it out).
+	stopped chan struct{}
+
 	// Size of the in and out buffers. This affects the maximum payload size. If
 	// not set, the defaultBufferSize (1024*256) is used.
 	bufferSize int64
@@ -233,6 +237,9 @@ func (svc *service) stop() {
 	defer func() {
 		if verifWon {
 			verifEvent("teardown-done", svc.id, 0)
+			if svc.stopped != nil {
+				close(svc.stopped)
+			}
 		}
 	}()
 	defer func() {
